@@ -23,7 +23,39 @@ INFO = dict(
     assumptions=["z3 decides QF_BV soundly"],
 )
 
-QUERIES = [None, b"", b"a=1", b"a=1&b=%41+x", b"k=&j=2", b"=v", b"a=1&a=2", b"%zz=1&x=%00"]
+QUERIES = [None, b"", b"a=1", b"a=1&b=%41+x", b"k=&j=2", b"=v", b"a=1&a=2", b"%zz=1&x=%00", b"id=%ff", b"%e9%80=%c3%a9&n=%7f%80"]
+
+
+def ref_qsl(query):
+    """independent reading of a query string: '&'-separated key=value pairs, '+' is a space, %XX is that byte (malformed escapes are
+    kept literally), pairs without '=' or with an empty value are dropped, a repeated key keeps its last value"""
+    def unq(b):
+        b = b.replace(b"+", b" ")
+        out = bytearray()
+        i = 0
+        while i < len(b):
+            if b[i] == 0x25 and i + 2 < len(b) + 0 and len(b) - i >= 3:
+                h = b[i + 1:i + 3]
+                try:
+                    if all(chr(c) in "0123456789abcdefABCDEF" for c in h):
+                        out.append(int(h, 16))
+                        i += 3
+                        continue
+                except ValueError:
+                    pass
+            out.append(b[i])
+            i += 1
+        return bytes(out)
+
+    res = {}
+    for part in query.split(b"&"):
+        if not part:
+            continue
+        k, eq, v = part.partition(b"=")
+        if not eq or not v:
+            continue
+        res[unq(k)] = unq(v)
+    return res
 WS = (9, 10, 11, 12, 13, 32)
 
 
@@ -103,7 +135,7 @@ def h_request(mlen, plen, query, nh, klen, vlen, blen):
         ctx.prove(isinstance(r, c2.HttpRequest), "a request line yields an HttpRequest")
         ctx.prove(deep_eq(as_bytes(r.method), method), "method preserved")
         ctx.prove(deep_eq(as_bytes(r.uri), path), "path reported exactly (everything before '?')")
-        exp_params = dict(_up.parse_qsl(query)) if query else {}
+        exp_params = ref_qsl(query) if query else {}
         gp = {V.to_native(as_bytes(k)) if not isinstance(k, bytes) else k: (V.to_native(as_bytes(v)) if not isinstance(v, bytes) else v)
               for k, v in r.params.items()}
         ctx.prove(gp == exp_params, "query parameters == percent-decoded pairs of the part after '?' (%r vs %r)" % (gp, exp_params))
